@@ -288,6 +288,31 @@ def observe_all(tracks) -> dict:
     }
 
 
+def only_unregistered_lost(a: dict, b: dict, tracks) -> bool:
+    """True iff the two `observe_all` snapshots differ ONLY in that some node/edge attributes whose
+    key is not a registered feature are absent afterwards (delete actions save registered features
+    only, so a rollback cannot bring such an attribute back)"""
+    for k in a:
+        if k in ("nodes", "edges"):
+            continue
+        if a[k] != b[k]:
+            return False
+    reg = set(tracks.features.keys())
+    lost = 0
+    for fld in ("nodes", "edges"):
+        if set(a[fld]) != set(b[fld]):
+            return False
+        for x, attrs in a[fld].items():
+            after = b[fld][x]
+            for key in set(attrs) | set(after):
+                if attrs.get(key) == after.get(key):
+                    continue
+                if key in reg or key not in attrs or key in after:
+                    return False
+                lost += 1
+    return lost > 0
+
+
 def obs_diff(a: dict, b: dict) -> str:
     out = []
     for k in a:
@@ -603,7 +628,7 @@ def run_session(prop: str, spec: dict, rng: random.Random, nops: int, res: Resul
             lab = {n: tracks.graph.nodes[n].get("track_id") for n in tracks.graph.nodes}
             for p in partition_problems(tracks.graph, segments(tracks.graph), lab, "track id"):
                 fail("construct|" + p.split(":")[0], "after construction: " + p)
-        if prop == "C05":
+        if prop == "C05" and "lineage_id" in tracks.track_annotator.features:
             lab = {n: tracks.graph.nodes[n].get("lineage_id") for n in tracks.graph.nodes}
             for p in partition_problems(tracks.graph, list(nx.weakly_connected_components(tracks.graph)), lab, "lineage id"):
                 fail("construct|" + p.split(":")[0], "after construction: " + p)
@@ -643,6 +668,7 @@ def run_session(prop: str, spec: dict, rng: random.Random, nops: int, res: Resul
             plan += ["undo"] * rng.randint(1, 4) + ["edit", "undo*", "redo*"]
         res.count("session-shape:history-plan")
     step = 0
+    tid_off = False   # the tracklet feature has been switched off at some point of this session
     while True:
         plan_item = None
         if pending:
@@ -665,6 +691,10 @@ def run_session(prop: str, spec: dict, rng: random.Random, nops: int, res: Resul
             if step >= nops:
                 break
             op = G.gen_op(rng, case, tracks, kinds, always_recompute=prop in ("C08", "C09"))
+            if prop == "C10" and op["op"] == "disable" and F.K_BOGUS not in op["keys"] and rng.random() < 0.2:
+                op["keys"] = [k for k in op["keys"] if k != F.K_TID] + [F.K_TID]
+        if tid_off or (op["op"] == "disable" and F.K_TID in op.get("keys", [])):
+            op["_nomodel"] = 1
         step += 1
         if op["op"] == "paint" and "groups" not in op:
             op["groups"] = [[px, ov] for px, ov in paint_groups(case, tracks, op)]
@@ -709,7 +739,12 @@ def run_session(prop: str, spec: dict, rng: random.Random, nops: int, res: Resul
                     plan.pop(0)
             else:
                 plan.pop(0)
-        if kind in ("undo", "redo") and out.startswith("err"):
+        if kind == "disable" and accepted and F.K_TID in op["keys"]:
+            tid_off = True
+            res.count("session-shape:tracklet-feature-switched-off(oracle-only from here)")
+        if kind in ("undo", "redo") and out.startswith("err") and not tid_off:
+            # (with the tracklet feature off a deleted node cannot be restored: AddNode demands a
+            #  track id that delete-node no longer saves — outside C01/C02's configurations)
             # undo()/redo() never raise on a history of accepted edits: the recorded inverse must apply
             fail(f"{kind}|raised", f"{kind}() raised ({out}) after the history {[o['op'] for o in ops]}")
             break
@@ -845,8 +880,8 @@ def run_session(prop: str, spec: dict, rng: random.Random, nops: int, res: Resul
                     for k in op["keys"]:
                         if k == F.K_IOU:
                             frozen[k] = {e: tracks.get_edge_attr(e, "iou") for e in tracks.graph.edges}
-                        elif k in F.RP_KEYS:
-                            frozen[k] = {n: canon_value(tracks.get_node_attr(n, case.keyname[k])) for n in tracks.graph.nodes}
+                        elif k in F.RP_KEYS or k in (F.K_TID, F.K_LIN):
+                            frozen[k] = {n: canon_value(tracks.graph.nodes[n].get(case.keyname[k])) for n in tracks.graph.nodes}
                 if kind == "enable" and accepted:
                     for k in op["keys"]:
                         frozen.pop(k, None)
@@ -862,7 +897,7 @@ def run_session(prop: str, spec: dict, rng: random.Random, nops: int, res: Resul
                             if x not in tracks.graph:
                                 vals.pop(x)
                                 continue
-                            now = canon_value(tracks.get_node_attr(x, case.keyname[k]))
+                            now = canon_value(tracks.graph.nodes[x].get(case.keyname[k]))
                         if now is None and v is not None:
                             # the node/edge was deleted and recreated by this step; an unregistered
                             # attribute is not saved by delete actions: absent, not changed
@@ -881,7 +916,14 @@ def run_session(prop: str, spec: dict, rng: random.Random, nops: int, res: Resul
         if prop == "C11" and out.startswith("err") and kind in EDIT_OPS:
             now = observe_all(tracks)
             if now != before_all:
-                fail(f"{kind}|{out}|state-changed", f"refused {op} ({out}) changed the state: " + obs_diff(before_all, now))
+                if only_unregistered_lost(before_all, now, tracks):
+                    # one finding of its own (known_findings.json, DESIGN §11.1 D18): every other
+                    # difference keeps the per-action signature below
+                    fail("rollback|unregistered-attribute-not-restored",
+                         f"refused {op} ({out}) removed and restored an element; its attribute under a key that is "
+                         f"not in tracks.features was not restored: " + obs_diff(before_all, now))
+                else:
+                    fail(f"{kind}|{out}|state-changed", f"refused {op} ({out}) changed the state: " + obs_diff(before_all, now))
             if ses.refresh != before_refresh:
                 fail(f"{kind}|{out}|refresh-emitted", f"refused {op} ({out}) emitted a refresh")
         if prop == "C20":
@@ -1076,6 +1118,164 @@ def prim_cases(prop: str, rng: random.Random, n: int, res: Result) -> list[Failu
                 seen.add(sig)
                 fails.append(Failure("oracle", prop, sig, f"{desc}: inverse().inverse() leaves " + obs_diff(b0, b1),
                                      {"spec": spec, "primitive": desc}))
+    return fails
+
+
+# ---------------------------------------------------------------------------------------------
+# C08/C09 on plain `Tracks` (not a solution): any DAG, including MERGES (a node with several
+# parents, also from one frame — candidate graphs look like this), edited through the primitive
+# actions and their inverses, with the features switched off and on again in between
+# ---------------------------------------------------------------------------------------------
+def plain_tracks_cases(prop: str, rng: random.Random, n: int, res: Result) -> list[Failure]:
+    from funtracks.actions import AddEdge, AddNode, DeleteEdge, DeleteNode, UpdateNodeSeg
+    from funtracks.data_model import Tracks
+    fails: list[Failure] = []
+    seen: set = set()
+    for _ in range(n):
+        spec = G.gen_case(rng, cfg="seg", with_ids=False)
+        spec.pop("prebuilt", None)
+        if spec.get("id_base"):
+            continue
+        case = F.Case(spec)
+        g = nx.DiGraph()
+        for x in spec["nodes"]:
+            g.add_node(x["id"], time=x["time"])
+        g.add_edges_from((e["u"], e["v"]) for e in spec["edges"])
+        # extra parents: merges, preferably with a second parent in the frame of the first
+        nodes = list(g.nodes)
+        extra = []
+        for v in nodes:
+            if rng.random() < 0.45:
+                tv = g.nodes[v]["time"]
+                cands = [u for u in nodes if g.nodes[u]["time"] < tv and not g.has_edge(u, v)]
+                par = [u for u in g.predecessors(v)]
+                same = [u for u in cands if par and g.nodes[u]["time"] == g.nodes[par[0]]["time"]]
+                if same and rng.random() < 0.7:
+                    cands = same
+                if cands:
+                    u = rng.choice(cands)
+                    g.add_edge(u, v)
+                    extra.append([u, v])
+        seg = np.array(spec["seg"], dtype=np.dtype(spec.get("seg_dtype", "int64"))).reshape(case.shape)
+        desc: dict[str, Any] = {"plain_tracks": {k: spec[k] for k in ("ndim", "shape", "seg", "scale", "seg_dtype", "nodes", "edges")},
+                                "merge_edges": extra, "steps": []}
+        try:
+            t = Tracks(g, segmentation=seg, scale=case.scale, ndim=case.ndim)
+            feats = ["iou"] if prop == "C09" else []
+            if prop == "C08" and case.ndim == 3 and case.scale in (None, [1.0] * 3) and rng.random() < 0.4:
+                feats += rng.sample(["ellipse_axis_radii", "circularity", "perimeter"], rng.randint(1, 2))
+            if feats:
+                t.enable_features(feats)
+            desc["enabled"] = feats
+        except Exception as e:
+            res.count(f"plain:construct-raised:{type(e).__name__}")
+            continue
+        T = case.shape[0]
+        last = None
+
+        def probs():
+            return iou_problems(case, t) if prop == "C09" else rp_problems(case, t)
+
+        steps = ["check"] + [rng.choice(["addedge", "addedge", "deledge", "grow", "shrink", "inverse", "off-on", "off-edit-on",
+                                         "addnode", "delnode"]) for _ in range(rng.randint(3, 8))]
+        stale = False
+        for st in steps:
+            gg = t.graph
+            ns = list(gg.nodes)
+            what: Any = st
+            try:
+                if st == "addedge":
+                    pairs = [(u, v) for u in ns for v in ns if gg.nodes[u]["time"] < gg.nodes[v]["time"] and not gg.has_edge(u, v)]
+                    if not pairs:
+                        continue
+                    e = rng.choice(pairs)
+                    what = ["addedge", list(e)]
+                    last = AddEdge(t, e)
+                elif st == "deledge":
+                    if not gg.edges:
+                        continue
+                    e = rng.choice(list(gg.edges))
+                    what = ["deledge", list(e)]
+                    last = DeleteEdge(t, e)
+                elif st in ("grow", "shrink"):
+                    if not ns:
+                        continue
+                    x = rng.choice(ns)
+                    tm = gg.nodes[x]["time"]
+                    if st == "grow":
+                        free = G.free_pixels(case, t, tm)
+                        if not free:
+                            continue
+                        pl = rng.sample(free, rng.randint(1, min(3, len(free))))
+                    else:
+                        own = case.pixels_of(t, x)
+                        if len(own) < 2:
+                            continue
+                        pl = rng.sample(own, rng.randint(1, len(own) - 1))
+                    what = [st, x, pl]
+                    last = UpdateNodeSeg(t, x, case.idx_tuple(pl), added=(st == "grow"))
+                elif st == "inverse":
+                    if last is None:
+                        continue
+                    last = last.inverse()
+                elif st in ("off-on", "off-edit-on"):
+                    keys = ["iou"] if prop == "C09" else ["area"]
+                    t.disable_features(keys)
+                    if st == "off-edit-on" and ns:
+                        # an edit while the feature is off: its stored values go stale and the bulk
+                        # computation has to overwrite every one of them
+                        x = rng.choice(ns)
+                        own = case.pixels_of(t, x)
+                        pl = None
+                        if gg.edges and rng.random() < 0.6:
+                            # take away EXACTLY the overlap with a neighbour: the true value drops to 0
+                            u_, v_ = rng.choice(list(gg.edges))
+                            fr = case.frame
+                            ou = {p_ % fr for p_ in case.pixels_of(t, u_)}
+                            ov = case.pixels_of(t, v_)
+                            inter = [p_ for p_ in ov if p_ % fr in ou]
+                            if inter and len(inter) < len(ov):
+                                x, pl = v_, inter
+                        if pl is None and len(own) >= 2:
+                            pl = rng.sample(own, rng.randint(1, len(own) - 1))
+                        if pl is not None:
+                            UpdateNodeSeg(t, x, case.idx_tuple(pl), added=False)
+                            what = [st, x, pl]
+                    t.enable_features(keys)
+                    last = None
+                elif st == "addnode":
+                    tm = rng.randrange(T)
+                    free = G.free_pixels(case, t, tm)
+                    if not free:
+                        continue
+                    nid = G.fresh_node_id(rng, t)
+                    pl = rng.sample(free, rng.randint(1, min(3, len(free))))
+                    what = ["addnode", nid, tm, pl]
+                    last = AddNode(t, nid, {"time": tm, "track_id": 1}, pixels=case.idx_tuple(pl))
+                elif st == "delnode":
+                    iso = [x for x in ns if gg.degree(x) == 0]
+                    if not iso:
+                        continue
+                    x = rng.choice(iso)
+                    what = ["delnode", x]
+                    DeleteNode(t, x)
+                    last = None  # on plain Tracks the track id is not a registered feature: no inverse
+            except Exception as e:
+                res.count(f"plain:{st}:raised:{type(e).__name__}")
+                break
+            desc["steps"].append(what)
+            res.evaluations += 1
+            res.count(f"plain:{st}")
+            res.nontrivial.add(h([spec["nodes"], sorted(map(tuple, t.graph.edges)), str(what)]))
+            bad = probs()
+            if bad:
+                merged = any(t.graph.in_degree(x) > 1 for x in t.graph.nodes)
+                sig = f"{prop}|plain-tracks|{st}|{bad[0].split(':')[0]}" + ("|graph-with-merge" if merged else "")
+                if sig not in seen:
+                    seen.add(sig)
+                    fails.append(Failure("oracle", prop, sig, f"plain Tracks, after {what}: {bad[0]}",
+                                         {"plain_case": copy.deepcopy(desc)}))
+                break
     return fails
 
 
@@ -1361,6 +1561,9 @@ def worker(args) -> Result:
         except Exception as e:
             res.notes.append(f"init encoding failed: {e}")
             continue
+        cut = next((i for i, o in enumerate(ops) if o.get("_nomodel")), None)
+        if cut is not None:
+            ops, outs, states = ops[:cut], outs[:cut], states[:cut + 1]
         lines = model_lines(case, init_line, ops)
         lines2 = lines
         batch_lines.extend(lines2)
@@ -1370,6 +1573,9 @@ def worker(args) -> Result:
     flush()
     if prop in ("C04", "C05") and fixed is None:
         for f in import_construction_cases(prop, random.Random(seed ^ 0xC0DE), max(10, nsessions // 2), res):
+            res.failures.append(f)
+    if prop in ("C08", "C09") and fixed is None:
+        for f in plain_tracks_cases(prop, random.Random(seed ^ 0x91A1), max(10, nsessions // 3), res):
             res.failures.append(f)
     if prop == "C01" and fixed is None:
         for f in prim_cases(prop, random.Random(seed ^ 0x5EED), max(20, nsessions), res):
